@@ -107,7 +107,7 @@ class C17(Prop):
             else:
                 arr["vkind"] = rng.choice(["f", "i", "i"])
                 nn = int(np.prod(shape))
-                how = rng.choice(["scalar", "list", "mask"])
+                how = rng.choice(["scalar", "list", "mask", "mixed", "mixed_mask_first"])
                 hits = sorted(rng.sample(range(nn), rng.randint(0, min(nn, 3)))) if nn else []
                 if how == "scalar":
                     hits = hits[:1]
@@ -155,6 +155,12 @@ class C17(Prop):
                         arg = m.reshape(a.shape)
                     elif c["how"] == "scalar":
                         arg = flat[c["hits"][0]].item() if c["hits"] else -12345
+                    elif c["how"] in ("mixed", "mixed_mask_first") and len(c["hits"]) >= 2:
+                        # a sequence holding values AND a boolean mask (the documented form a.setna([-99, a > 1]))
+                        m = np.zeros(a.size, dtype=bool); m[c["hits"][1:]] = True
+                        arg = [flat[c["hits"][0]].item(), m.reshape(a.shape)]
+                        if c["how"] == "mixed_mask_first":
+                            arg = arg[::-1]
                     else:
                         arg = [flat[i].item() for i in c["hits"]]
                     r = a.setna(arg, inplace=c["inplace"])
